@@ -102,6 +102,8 @@ fn op_kind(op: &TmOp) -> &'static str {
         TmOp::NhReach { .. } => "nexthop-report",
         TmOp::Subscribe => "subscribe",
         TmOp::Unsubscribe(_) => "unsubscribe",
+        TmOp::InsertLocal { .. } => "insert-local",
+        TmOp::RemoveLocal { .. } => "remove-local",
     }
 }
 
